@@ -273,7 +273,7 @@ def group_classes(c):
 BAD = ["int", "none", "float", "object", "str", "plss_in_list"]
 PATHS = ["constructor", "extend", "iadd", "add", "append", "insert", "setitem", "from_multiple", "from_multiple_nested"]
 CONS_CASE = st.fixed_dictionaries({
-    "container": st.sampled_from(["TractList", "TRSList"]), "path": st.sampled_from(PATHS),
+    "container": st.sampled_from(["TractList", "TRSList"]), "path": st.sampled_from(PATHS + ["from_multiple", "from_multiple"]),
     "initial": st.lists(ELEM, min_size=0, max_size=3), "good": st.lists(st.tuples(st.sampled_from(["tract", "str", "trs"]), ELEM), min_size=0, max_size=5),
     "bad": st.sampled_from([None, None] + BAD), "pos": st.integers(0, 5), "nest": st.integers(1, 3), "wrap": st.sampled_from(["list", "tuple", "generator"]),
     # from_multiple: hand some of the supplied elements over inside a TractList / a list of the same class / a PLSSDesc-like container
@@ -360,9 +360,12 @@ def oracle_construct(c):
         elif path == "from_multiple":
             args = list(objs)
             pack = c.get("pack", "none")
-            if pack != "none" and not has_bad and len(args) >= 2:
+            if pack != "none" and not has_bad and len(args) >= 2 and not any(isinstance(x, PLSSDesc) for x in args[:2]):
                 head, tail = args[:2], args[2:]
-                if pack in ("tractlist", "tractlist_nested") and all(isinstance(x, Tract) for x in head):
+                if pack in ("tractlist", "tractlist_nested"):
+                    # (for a TRSList the first two elements are handed over as Tract objects inside a TractList)
+                    if kind == "TRSList":
+                        head = [mk(e) for _, e in c["good"][:2]]
                     packed = TractList(head)
                     args = [[packed] if pack == "tractlist_nested" else packed] + tail
                 elif pack == "samelist":
